@@ -1376,7 +1376,7 @@ Proof. exact (QS_start_gen false). Qed.
 Definition op_ok (p : p2p) (o : sop) : bool :=
   match o with
   | SLocal _ _ => true
-  | SAdvance => forallb (fun st => cs_last st <? I32MAX) (ps_status p)
+  | SAdvance => forallb (fun st => cs_last st + 1 <? I32MAX) (ps_status p)
   | SRemote pl f _ =>
       (0 <=? pl) && (pl <? ps_nplayers p) &&
       (match nth_error (ps_kinds p) (Z.to_nat pl) with Some (KRemote _) => true | _ => false end) &&
